@@ -7,6 +7,7 @@ import DL.Model.Codec
 import DL.Model.DecFiles
 import DL.Lemmas.Subst
 import DL.Lemmas.LayoutGen
+import DL.Lemmas.LayoutGenAmp
 import DL.Model.GooFitProg
 import DL.Gen.Particles
 import DL.Gen.Models
@@ -229,6 +230,11 @@ def handle (x : Sexp) : Sexp :=
       | .ok (out, st') => ok (.list [encReadOut out, encRState st'])
       | .error e => encAmpErr e)
     | _, _, _, _ => bad "amp_read"
+  | .list [.atom "amp_render_layout", seed, d] => match seed.asNat, d.asList.bind (·.mapM decAStmtT) with
+    | some seed, some d =>
+      let (text, gl, gs) := LayoutGenAmp.renderSeeded seed d
+      ok (.list [.atom text, bool gl, bool gs])
+    | _, _ => bad "amp_render_layout"
   | .list [.atom "amp_text", .atom text] =>
     (match Amp.readAmpText text with
     | .ok ts => ok (.list [.list (ts.map encAStmtT), bool (readAmp text).toOption.isSome])
